@@ -20,6 +20,7 @@ def main():
     tier = os.environ.get("VERIF_TIER", "quick")
     if "--tier" in sys.argv: tier = sys.argv[sys.argv.index("--tier") + 1]
     seed = int(os.environ.get("VERIF_SEED", "0") or 0)
+    if tier == "thorough": os.environ.setdefault("VERIF_TASK_TIMEOUT", "5400")
     atexit.register(build.cleanup)
     t0 = time.time()
     mod = importlib.import_module("checks." + pid.lower())
